@@ -51,7 +51,7 @@ def channel(draw, has_bnodes):
     parts = draw(st.integers(1, 4)) if how in ("files", "urls") or comp == "zip" else 1
     assign = draw(st.lists(st.integers(0, 3), min_size=1, max_size=12))
     return {"fmt": fmt, "how": how, "comp": comp, "parts": parts, "assign": assign, "zips": draw(st.integers(1, 2)),
-            "pfx": draw(st.integers(0, 3))}
+            "pfx": draw(st.integers(0, 7))}
 
 
 @st.composite
@@ -95,7 +95,8 @@ def content(fmt, triples, pfx=0):
     if fmt == "tsv_spo":
         return to_tsv(triples)
     if fmt in ("turtle", "turtle_iter", "n3"):
-        return to_simple_turtle(triples, TTL_PREFIXES[pfx % len(TTL_PREFIXES)])
+        # every second prefix choice also writes xsd:integer literals in Turtle's number shorthand (-5, +3, 42)
+        return to_simple_turtle(triples, TTL_PREFIXES[pfx % len(TTL_PREFIXES)], bare_integers=(pfx // len(TTL_PREFIXES)) % 2 == 1)
     g = to_rdflib(triples)
     for k, v in TTL_PREFIXES[pfx % len(TTL_PREFIXES)].items():
         g.bind(k, v)        # the serialised document declares these prefixes too
